@@ -147,6 +147,7 @@ func main() {
 	list := flag.Bool("list", false, "list registered properties")
 	noEvidence := flag.Bool("no-evidence", false, "do not write the evidence file (selftest on scratch copies)")
 	explain := flag.String("explain", "", "print the obligations recorded in a violations file")
+	describe := flag.Bool("describe", false, "print the registered properties with their explanations as JSON")
 	dump := flag.String("dump", "", "debug: load -pkgs and dump the SSA of the function spec")
 	dumpPkgs := flag.String("pkgs", "", "debug: package patterns for -dump (space separated)")
 	flag.Parse()
@@ -159,6 +160,22 @@ func main() {
 		return
 	}
 
+	if *describe {
+		type d struct {
+			ID          string   `json:"id"`
+			Explanation string   `json:"explanation"`
+			Assumptions []string `json:"assumptions"`
+			Patterns    []string `json:"patterns"`
+		}
+		var out []d
+		for _, p := range registry {
+			out = append(out, d{p.ID, p.Explanation, p.Assumptions, p.Patterns})
+		}
+		sort.Slice(out, func(i, j int) bool { return out[i].ID < out[j].ID })
+		b, _ := json.MarshalIndent(out, "", " ")
+		os.Stdout.Write(append(b, '\n'))
+		return
+	}
 	if *list {
 		ids := []string{}
 		for id := range registry {
